@@ -45,9 +45,6 @@ ASSUMPTIONS = [
     "reuse=True pre-state: the directory holds a consistent result of an earlier session (main and older slots with header + records, remaining slots empty)",
 ]
 
-KNOWN = []
-
-
 class _House(object):
     name = "h"
 
@@ -345,7 +342,7 @@ def obligations(tier):
                     if restart and not reuse:
                         continue
                     T = 3 if quick else 4
-                    params = dict(keep=keep, reuse=reuse, T=T, nmax=2, dmax=1 if quick else 2, pmax=2 if quick else 3,
+                    params = dict(keep=keep, reuse=reuse, T=T, nmax=2, dmax=1, pmax=2 if quick else 3,
                                   smax=40, crash=0, restart=restart, prefill=prefill)
                     name = "rotate/keep=%d/%s/pre=%s%s" % (keep, "reuse" if reuse else "unique",
                                                          "none" if prefill is None else "%d+%d" % prefill,
@@ -354,7 +351,7 @@ def obligations(tier):
                     if keep > 0:
                         covers = ["rotated"] + (["oldest-generation-discarded"] if keep <= 2 or prefill else [])
                     out.append(Ob(name, h, params, budget=400 if quick else 1500, covers=covers,
-                                  bounds=dict(ticks=T, runs_per_tick="0..2 (symbolic)", stamp_increment="1..%d" % params["dmax"],
+                                  bounds=dict(ticks=T, runs_per_tick="0..2 (symbolic; 0 = a tick passes without a logger run)", stamp_increment="1 per tick",
                                               cycle_period="1..%d (symbolic)" % params["pmax"],
                                               flush_period="1..%d (symbolic)" % params["pmax"],
                                               size_threshold="0..40 (symbolic)", keep=keep, reuse=reuse,
